@@ -1,7 +1,8 @@
 (* C14 — property theorems only.  Each is closed by [exact] of a lemma from
    Proofs*.v and followed by Print Assumptions. *)
 From Coq Require Import List Arith ZArith Bool Permutation Sorted.
-From Verif Require Import lib.Wire c14.Model c14.Spec c14.Proofs c14.Proofs_Abs c14.Proofs_Trim c14.Proofs_Main.
+From Verif Require Import lib.Wire c14.Model c14.Spec c14.Proofs c14.Proofs_Abs c14.Proofs_Trim c14.Proofs_Main
+     c14.Conc c14.SpecConc c14.ProofsConc c14.ProofsConc2 c14.ProofsConc3 c14.ProofsConc4 c14.ProofsConc5.
 Import ListNotations.
 Local Open Scope Z_scope.
 
@@ -126,6 +127,157 @@ Theorem c14_force_trim_may_stop_above_low :
 Proof. vm_compute. split; reflexivity. Qed.
 Print Assumptions c14_force_trim_may_stop_above_low.
 
+(* ==== CONCURRENCY: the manager as an LTS of critical sections (Conc.v).  A
+   schedule is ANY list of atomic actions (a trim split into begin / per-peer
+   snapshot / sort / per-entry selection / close, the decayer tick split per
+   peer, every other operation one section); actions that are not enabled are
+   skipped.  All theorems below quantify over every schedule. ==== *)
+
+(* "count and tag totals always equal what the notifications and tag operations
+   imply, under ANY interleaving with trims": the cached value is the tag sum
+   and the cached count the number of tracked connections in every state of
+   every schedule (also between the steps of a trim and of a decay tick) *)
+Theorem c14_conc_count_and_totals_every_schedule : forall cfg sched p, 0 <= c_low cfg ->
+  let s := cs_s (fst (crun cfg (cinit cfg) sched)) in
+  p_value (peer_at s p) = zsum (p_tags (peer_at s p)) + zsum (p_dec (peer_at s p))
+  /\ count s = zsum (map (fun pi => zlen (p_conns pi)) (peers s)).
+Proof.
+  intros cfg sched p Hlow s. pose proof (ci_inv _ _ (cinv_run cfg sched (cinit cfg) Hlow (cinv_init cfg))) as H.
+  split; [exact (proj1 (proj2 (peer_at_ok _ p H)))|exact (proj2 H)].
+Qed.
+Print Assumptions c14_conc_count_and_totals_every_schedule.
+
+(* (a) every candidate of the trim in flight - hence every selected and every
+   closed connection's peer - was unprotected in the protection table the
+   snapshot phase ran under ([cs_psnap], taken at ABegin); while the snapshot
+   phase lasts the real table IS that table, because Protect/Unprotect block on
+   plk (second theorem).  A Protect issued after the snapshot phase does not
+   save the peer: that is what the code guarantees, no more. *)
+Theorem c14_conc_protected_at_snapshot_never_selected : forall cfg sched, 0 <= c_low cfg ->
+  let cs := fst (crun cfg (cinit cfg) sched) in
+  (forall e, In e (cs_cands cs) -> is_prot (cs_psnap cs) (ce_p e) = false)
+  /\ (forall p c, In (p, c) (cs_sel cs) -> exists e, In e (cs_cands cs) /\ ce_p e = p)
+  /\ (forall vis, cs_ph cs = TSnap vis -> prot (cs_s cs) = cs_psnap cs).
+Proof.
+  intros cfg sched Hlow cs. pose proof (cinv_run cfg sched (cinit cfg) Hlow (cinv_init cfg)) as H. fold cs in H.
+  repeat split.
+  - intros e He. exact (proj1 (ci_snap _ _ H e He)).
+  - exact (ci_sel _ _ H).
+  - intros vis E. exact (proj2 (ci_vis _ _ H vis E)).
+Qed.
+Print Assumptions c14_conc_protected_at_snapshot_never_selected.
+
+Theorem c14_conc_protect_blocks_during_snapshot : forall cfg cs vis p g, cs_ph cs = TSnap vis ->
+  cstep cfg cs (AOp (Protect p g)) = None /\ cstep cfg cs (AOp (Unprotect p g)) = None.
+Proof. intros cfg cs vis p g E. unfold cstep, op_enabled. rewrite E. split; reflexivity. Qed.
+Print Assumptions c14_conc_protect_blocks_during_snapshot.
+
+(* (b) the firstSeen read at a candidate's snapshot ([ce_first], recorded by
+   ASnap from the live entry) is not after gracePeriodStart: a peer inside its
+   grace period when snapshotted is never a candidate, so none of its
+   connections is ever selected or closed by that trim *)
+Theorem c14_conc_in_grace_at_snapshot_never_selected : forall cfg sched, 0 <= c_low cfg ->
+  let cs := fst (crun cfg (cinit cfg) sched) in
+  forall e, In e (cs_cands cs) -> ce_first e <= cs_gstart cs.
+Proof.
+  intros cfg sched Hlow cs e He.
+  exact (proj2 (ci_snap _ _ (cinv_run cfg sched (cinit cfg) Hlow (cinv_init cfg)) e He)).
+Qed.
+Print Assumptions c14_conc_in_grace_at_snapshot_never_selected.
+
+(* (c) when the trim is about to close its selection, the connections left on
+   its live candidates number at most low + the connections that Connected
+   added to a live candidate after its snapshot (ghost counters); with no such
+   Connected the bound is low *)
+Theorem c14_conc_left_at_most_low_plus_added : forall cfg sched, 0 <= c_low cfg ->
+  let cs := fst (crun cfg (cinit cfg) sched) in
+  cs_ph cs = TClose ->
+  phi (cs_s cs) (cs_sel cs) (cs_cands cs) <= c_low cfg + cs_added1 cs + cs_added2 cs.
+Proof.
+  intros cfg sched Hlow cs E. exact (phi_at_close cfg cs (cinv_run cfg sched (cinit cfg) Hlow (cinv_init cfg)) E).
+Qed.
+Print Assumptions c14_conc_left_at_most_low_plus_added.
+
+(* (d) every value the sort's comparator reads is the peer's tag total at the
+   instant of that comparison (its critical section is the linearisation
+   point): no torn per-peer value, in any reachable state *)
+Theorem c14_conc_no_torn_value : forall cfg sched p q cs' evs, 0 <= c_low cfg ->
+  let cs := fst (crun cfg (cinit cfg) sched) in
+  cstep cfg cs (ACmp p q) = Some (cs', evs) ->
+  cs' = cs /\ forall x v, In (ERead x v) evs ->
+    v = zsum (p_tags (peer_at (cs_s cs) x)) + zsum (p_dec (peer_at (cs_s cs) x)).
+Proof.
+  intros cfg sched p q cs' evs Hlow cs Hs.
+  exact (cmp_reads cfg cs p q cs' evs (cinv_run cfg sched (cinit cfg) Hlow (cinv_init cfg)) Hs).
+Qed.
+Print Assumptions c14_conc_no_torn_value.
+
+(* (e) the decayer's sections (bump, remove, the per-peer decay of a tick) on a
+   tracked peer change tag values only, and every step of a trim is the same
+   step on the state with all tag values erased: decayer sections and the
+   trim's snapshot / selection / close commute, whatever the schedule; the
+   cached value stays the tag sum throughout (first theorem above) *)
+Theorem c14_conc_decayer_commutes_with_trim :
+  (forall cfg s p, p_tracked (peer_at s p) = true ->
+     (forall d dl, erase (bump cfg s p d dl) = erase s)
+     /\ (forall d, erase (dremove cfg s p d) = erase s)
+     /\ (forall vs, erase (set_peer s p (decay_peer vs (peer_at s p))) = erase s))
+  /\ (forall cfg cs a, is_trim_act a = true ->
+        cstep cfg (erase_cs cs) a =
+        match cstep cfg cs a with Some (cs', evs) => Some (erase_cs cs', evs) | None => None end).
+Proof. exact (conj decayer_sections_erase trim_steps_erase). Qed.
+Print Assumptions c14_conc_decayer_commutes_with_trim.
+
+(* the monitor that judges the implementation's scripted during-trim
+   interleavings by clauses (a)-(d) accepts the event trace of EVERY schedule *)
+Theorem c14_conc_monitor_accepts_every_schedule : forall cfg sched, 0 <= c_low cfg ->
+  exists m', cmon cfg (cm_init (ainit cfg)) 0 (snd (crun cfg (cinit cfg) sched)) = inl m'.
+Proof. exact cmon_accepts_l. Qed.
+Print Assumptions c14_conc_monitor_accepts_every_schedule.
+
+(* WITNESS 1 (clause (b) cannot be strengthened to "no connection of a peer
+   that is inside its grace period when it is closed"): peer 0 was tagged early
+   (temporary entry, firstSeen 0) and is out of grace at time 5, so the trim
+   snapshots it as a candidate; its Connected arrives between the snapshot and
+   the selection loop, clears temp and restarts the grace period (firstSeen 5);
+   the selection loop reads the entry's LIVE connection set and the trim
+   closes the brand-new connection (0,7) although firstSeen = now. *)
+Definition w1_cfg := mkCfg 1 3 5 1 [].
+Definition w1_sched : list act :=
+  [AOp (TagPeer 0 0 1); AOp (Connected 1 0); AOp (Connected 2 0);
+   AClock; AClock; AClock; AClock; AClock;
+   ABegin; ASnap 0; ASnap 1; ASnap 2; ASnapEnd; ASortEnd [0; 1; 2]%nat;
+   AOp (Connected 0 7);
+   ASelect; ASelect; AFinish].
+Theorem c14_conc_fresh_grace_closed_witness :
+  let r := crun w1_cfg (cinit w1_cfg) w1_sched in
+  let s := cs_s (fst r) in
+  In (EClosed [(0%nat, 7%nat)]) (snd r)
+  /\ now s = 5 /\ p_first (peer_at s 0) = 5 /\ now s - c_grace w1_cfg < p_first (peer_at s 0).
+Proof. vm_compute. repeat split; auto 30. Qed.
+Print Assumptions c14_conc_fresh_grace_closed_witness.
+
+(* WITNESS 2 (the literal "after a trim with no concurrent Connected at most
+   low open, unprotected, out-of-grace connections remain" is false when an
+   Unprotect - or a clock advance - races with the trim; the true statement is
+   c14_conc_left_at_most_low_plus_added, about the trim's candidates): peer 3
+   is protected while snapshotted and unprotected before the trim finishes; no
+   Connected happens; the trim closes (1,0) and two eligible connections are
+   left with low = 1. *)
+Definition w2_cfg := mkCfg 1 3 0 1 [].
+Definition w2_sched : list act :=
+  [AOp (Connected 1 0); AOp (Connected 2 0); AOp (Connected 3 0); AOp (Protect 3 0);
+   ABegin; ASnap 0; ASnap 1; ASnap 2; ASnap 3; ASnapEnd; ASortEnd [1; 2]%nat;
+   AOp (Unprotect 3 0);
+   ASelect; ASelect; AFinish].
+Theorem c14_conc_literal_low_fails_with_unprotect_witness :
+  let r := crun w2_cfg (cinit w2_cfg) w2_sched in
+  In (EClosed [(1%nat, 0%nat)]) (snd r)
+  /\ remaining_eligible w2_cfg (abs (cs_s (fst r))) [(1%nat, 0%nat)] = 2
+  /\ c_low w2_cfg = 1.
+Proof. vm_compute. repeat split; auto 30. Qed.
+Print Assumptions c14_conc_literal_low_fails_with_unprotect_witness.
+
 (* ---- non-vacuity ------------------------------------------------------------------ *)
 (* a reachable state in which a trim closes the lowest-valued unprotected peer
    outside its grace period and keeps the protected and the young one *)
@@ -198,4 +350,52 @@ Example monitor_rejects_forced_protected_first :
      (Connected 1 0, mkObs 2 [(true, 0, 0); (true, 0, 0)] []);
      (Protect 0 0,   mkObs 2 [(true, 0, 0); (true, 0, 0)] []);
      (ForceTrim,     mkObs 2 [(true, 0, 0); (true, 0, 0)] [(0%nat, 0%nat)])] = [ERR_PROPERTY; 3; 22].
+Proof. vm_compute. reflexivity. Qed.
+
+(* a schedule in which tag and connect operations interleave with the steps of
+   a trim that closes something, and the concurrent monitor rejecting: a closed
+   connection of a peer protected when snapshotted (31), of a peer in grace when
+   snapshotted (32), too many connections left (34), a torn value (36) *)
+Example conc_trim_with_interleaving :
+  snd (crun (mkCfg 1 3 0 1 []) (cinit (mkCfg 1 3 0 1 []))
+        [AOp (Connected 0 0); AOp (Connected 1 0); AOp (Connected 2 0); ABegin; ASnap 0; AOp (TagPeer 0 0 9);
+         ASnap 1; ASnap 2; ASnapEnd; ACmp 0 1; AOp (Connected 1 1); ASortEnd [1; 2; 0]%nat; ASelect; ASelect; AFinish])
+  = [EOp (Connected 0 0); EOp (Connected 1 0); EOp (Connected 2 0); ETrimBegin; ESnap 0; EOp (TagPeer 0 0 9);
+     ESnap 1; ESnap 2; ESnapEnd; ERead 0 9; ERead 1 0; EOp (Connected 1 1); EClosed [(1%nat, 1%nat); (1%nat, 0%nat)]].
+Proof. vm_compute. reflexivity. Qed.
+
+Definition cm_events (cfg : config) (evs : list event) : cmst + list Z := cmon cfg (cm_init (ainit cfg)) 0 evs.
+
+Example cmon_rejects_protected_at_snapshot :
+  cm_events (mkCfg 1 3 0 1 [])
+    [EOp (Connected 0 0); EOp (Connected 1 0); EOp (Protect 0 0); ETrimBegin; ESnap 0; ESnap 1; ESnapEnd;
+     EClosed [(0%nat, 0%nat)]] = inr [ERR_PROPERTY; 7; 31].
+Proof. vm_compute. reflexivity. Qed.
+
+Example cmon_accepts_protect_after_snapshot :
+  exists m, cm_events (mkCfg 1 3 0 1 [])
+    [EOp (Connected 0 0); EOp (Connected 1 0); ETrimBegin; ESnap 0; ESnap 1; ESnapEnd; EOp (Protect 0 0);
+     EClosed [(0%nat, 0%nat)]] = inl m.
+Proof. eexists. vm_compute. reflexivity. Qed.
+
+Example cmon_rejects_in_grace_at_snapshot :
+  cm_events (mkCfg 1 3 5 1 [])
+    [EOp (Connected 0 0); EOp (Connected 1 0); ETrimBegin; ESnap 0; ESnap 1; ESnapEnd;
+     EClosed [(0%nat, 0%nat)]] = inr [ERR_PROPERTY; 6; 32].
+Proof. vm_compute. reflexivity. Qed.
+
+Example cmon_rejects_too_many_left :
+  cm_events (mkCfg 1 3 0 1 [])
+    [EOp (Connected 0 0); EOp (Connected 1 0); EOp (Connected 2 0); ETrimBegin; ESnap 0; ESnap 1; ESnap 2; ESnapEnd;
+     EClosed [(0%nat, 0%nat)]] = inr [ERR_PROPERTY; 8; 34].
+Proof. vm_compute. reflexivity. Qed.
+
+Example cmon_accepts_one_more_left_after_connected :
+  exists m, cm_events (mkCfg 1 3 0 1 [])
+    [EOp (Connected 0 0); EOp (Connected 1 0); EOp (Connected 2 0); ETrimBegin; ESnap 0; ESnap 1; ESnap 2; ESnapEnd;
+     EOp (Connected 2 1); EClosed [(0%nat, 0%nat); (1%nat, 0%nat)]] = inl m.
+Proof. eexists. vm_compute. reflexivity. Qed.
+
+Example cmon_rejects_torn_value :
+  cm_events (mkCfg 1 3 0 1 []) [EOp (TagPeer 0 0 4); EOp (TagPeer 0 1 3); ERead 0 4] = inr [ERR_PROPERTY; 2; 36].
 Proof. vm_compute. reflexivity. Qed.
